@@ -38,6 +38,7 @@ mod carrier;
 mod external;
 mod gen_cases;
 mod toval;
+mod vnorm;
 
 pub use gen_cases::generate;
 
@@ -1055,6 +1056,7 @@ pub fn run(case: &str, ctx: &mut Ctx) -> String {
             }
         }
         Some("conv") => external::run_conv(&c.toks[1..]),
+        Some("vnorm") => vnorm::run_vnorm(&c.toks[1..], ctx),
         Some("tdeciter") => {
             let Some(elem) = c.next() else { return "bad-case".to_owned() };
             let Some(ty) = parse_ty(&mut c) else { return "bad-case".to_owned() };
